@@ -181,6 +181,7 @@ func runC18(c *Ctx, r *Report) {
 	c18ArgCursor(c, r)
 	c18NilMapWrites(c, r)
 	c18TrimBothEnds(c, r)
+	c18BoundTests(c, r)
 	r.Rule("R18.7", "a failed read ends the read loop (= R17.12): no path on which a reader's low-level read returned a non-nil, unclassified error leads back to the same read")
 	sub := NewReport("tmp", r.Tier)
 	c17ReadErrors(c, sub)
